@@ -412,6 +412,18 @@ example : (writeToTempfile [1, 2, 3] true (.ok ()) (.ok ()) (.ok 3)).file = some
     (writeToTempfile [1] true (.ok ()) (.ok ()) (.error (.osError (some 28)))).file = some [] := by
   decide
 
+/-- "creating missing directories first" holds on every call: in a session of any length the
+    i-th call consults ensure_tree iff its own path argument is truthy and is decided by the
+    outcomes of its own three calls alone, whatever calls (with whatever paths) came before -/
+theorem write_to_tempfile_every_call (calls : List TempCall) (i : Nat) (h : i < calls.length) :
+    ∃ h2 : i < (tempSession calls).length,
+      (tempSession calls)[i] = writeToTempfile calls[i].content calls[i].pathTruthy calls[i].ensure
+        calls[i].mkstemp calls[i].write ∧
+      (tempSession calls)[i].ensureCalled = calls[i].pathTruthy := by
+  refine ⟨by simpa [tempSession] using h, by simp [tempSession], ?_⟩
+  simp only [tempSession, List.getElem_map]
+  exact (write_to_tempfile_spec _ _ _ _ _).2.2.1
+
 /-! ### "succeed when the work is already done", on the one-path file-system model -/
 
 /-- ensure_tree on an existing directory succeeds and changes nothing; whenever it
